@@ -1,2 +1,2 @@
 #!/bin/bash
-exec "$(dirname "${BASH_SOURCE[0]}")/run_legs.sh" C09 20 8 0
+exec "$(dirname "${BASH_SOURCE[0]}")/run_legs.sh" C09 6 8 0
